@@ -145,7 +145,7 @@ def replay(path):
 def configs(tier):
     c = ['RotatedPlanar2DCode(2,2)', 'Toric2DCode(2,3)', 'Toric3DCode(2,2,2)/XZZX/z']
     if tier != 'quick':
-        c += ['Planar2DCode(3,3)/XY', 'RhombicPlanarCode(2,2,2)/Checkerboard XZZX', 'XCubeCode(2,2,2)',
+        c += ['Planar2DCode(3,3)/XY', 'RhombicPlanarCode(2,2,2)/Checkerboard_XZZX', 'XCubeCode(2,2,2)',
               'Color666PlanarCode(2,2)', 'RotatedPlanar3DCode(3,3,3)']
     return c
 
